@@ -52,6 +52,59 @@ def run(F, tier, res):
         return res
     E.add_e1(res, R, {'ORD-W'}, 'C14', fn_filter=lambda v: any(c in v['frames'] for c in composers) or any(
         f in v['frames'] for c in composers for f in F.reachable_from([c])))
+    # predicates that imply "handled != current" when true: bool functions of the state machine whose result is either the
+    # constant false or the comparison itself (`cond && handled != current`): extract-function refactorings of the guard
+    def _cmp_fields(fn, r):
+        fl = set()
+        for a in r[4]['args'][:2]:
+            for rr in F.trace(fn, a):
+                if rr[0] in ('param', 'local') and rr[2]:
+                    fl.add(rr[2][-1])
+        return fl
+    pending_preds = set()
+    for q, b_ in F.fn_bodies.items():
+        if b_['mir']['locals'][0] != 'bool':
+            continue
+        roots = F.trace(q, {'copy': {'l': 0, 'p': []}})
+        cmpc = [r for r in roots if r[0] == 'call' and r[1].endswith(('::ne', '::eq')) and {HANDLED, CURRENT} <= _cmp_fields(q, r)]
+        if not cmpc:
+            continue
+        nots = sum(1 for r in roots if r[0] == 'unop' and r[1] == 'Not')
+        others = [r for r in roots if r[0] == 'call' and r not in cmpc] + [r for r in roots if r[0] == 'const' and 'true' in str(r[1])]
+        is_ne = cmpc[0][1].endswith('::ne')
+        if not others and (is_ne == (nots % 2 == 0)):
+            pending_preds.add(q)
+
+    def guarded_site(fn, i):
+        for (sb, op, arms, other) in Ru.switches(F, fn):
+            roots = F.trace(fn, op)
+            cmpc = [r for r in roots if r[0] == 'call' and (r[1].endswith('::ne') or r[1].endswith('::eq'))]
+            hit = None
+            for r in cmpc:
+                if {HANDLED, CURRENT} <= _cmp_fields(fn, r):
+                    hit = r
+            pred = [r for r in roots if r[0] == 'call' and ((r[4].get('resolved') or '') in pending_preds or r[1] in pending_preds)]
+            if not hit and not pred:
+                continue
+            neg = Ru.negations(F, fn, op) % 2 == 1
+            tt, ft = Ru.bool_edges(arms, other)
+            if hit:
+                is_ne = hit[1].endswith('::ne')
+                differ = tt if (is_ne != neg) else ft
+            else:
+                differ = ft if neg else tt
+            if differ is not None and (Ru.edge_dominates(F, fn, sb, differ, i) or differ == i):
+                return True
+        return False
+
+    def site_ok(fn, i, depth=0):
+        if guarded_site(fn, i):
+            return True
+        if depth >= 2:
+            return False
+        callers = [(q, j) for q in F.fn_bodies for j, cc in F.calls(q) if callee_of(cc) == fn or (cc.get('resolved') or '') == fn]
+        return bool(callers) and all(site_ok(q, j, depth + 1) for (q, j) in callers)
+
     n = ok = 0
     for p in sorted(F.fn_bodies):
         for i, c in F.calls(p):
@@ -59,28 +112,8 @@ def run(F, tier, res):
                 continue
             n += 1
             good = True
-            # (a) guarded by the differ edge
-            guarded = False
-            for (sb, op, arms, other) in Ru.switches(F, p):
-                roots = F.trace(p, op)
-                cmpc = [r for r in roots if r[0] == 'call' and (r[1].endswith('::ne') or r[1].endswith('::eq'))]
-                hit = None
-                for r in cmpc:
-                    fl = set()
-                    for a in r[4]['args'][:2]:
-                        for rr in F.trace(p, a):
-                            if rr[0] == 'param' and rr[2]:
-                                fl.add(rr[2][-1])
-                    if {HANDLED, CURRENT} <= fl:
-                        hit = r
-                if not hit:
-                    continue
-                is_ne = hit[1].endswith('::ne')
-                neg = Ru.negations(F, p, op) % 2 == 1
-                tt, ft = Ru.bool_edges(arms, other)
-                differ = tt if (is_ne != neg) else ft
-                if Ru.edge_dominates(F, p, sb, differ, i):
-                    guarded = True
+            # (a) guarded by the differ edge (here, or at every call site of this function when it is a write-and-mark helper)
+            guarded = site_ok(p, i)
             if not guarded:
                 good = False
                 res.violate('PAIRING', 'fn=%s;guard' % p, 'the file header is composed and written without checking that it has not been written '
